@@ -47,6 +47,10 @@ class Scatter(object):
         self.axes = plt.subplot(1, 1, 1)
 
         self.catalog = catalog
+        # Catalog rows are identified by the structure id stored in the
+        # ``_idx`` column (ids need not be contiguous, e.g. after pruning)
+        self._row_idx = [int(i) for i in catalog['_idx']]
+        self._row_of_idx = dict((idx, row) for row, idx in enumerate(self._row_idx))
         self.xdata = catalog[xaxis]
         self.ydata = catalog[yaxis]
 
@@ -91,7 +95,7 @@ class Scatter(object):
             indices = np.where(p.contains_points(self.xys) &
                                ~np.isnan(self.xdata) &
                                ~np.isnan(self.ydata))[0]
-            selected_structures = [self.dendrogram[i] for i in indices]
+            selected_structures = [self.dendrogram[self._row_idx[i]] for i in indices]
 
             if len(selected_structures) == 0:
                 selected_structures = [None]
@@ -125,9 +129,11 @@ class Scatter(object):
             self.fig.canvas.draw()
             return
         if self.hub.select_subtree[selection_id]:
-            selected_indices = [leaf.idx for leaf in struct.descendants + [struct]]
+            selected = struct.descendants + [struct]
         else:
-            selected_indices = [leaf.idx for leaf in structures]
+            selected = structures
+        selected_indices = [self._row_of_idx[s.idx] for s in selected
+                            if s.idx in self._row_of_idx]
 
         self.lines2d[selection_id] = self.axes.plot(
             self.xdata[selected_indices],
